@@ -187,12 +187,6 @@ Proof. unfold fpred. intros H. apply Nat.eqb_eq in H. exact H. Qed.
 Lemma fpred_false s : fpred s = false -> pending s <> 0.
 Proof. unfold fpred. intros H. apply Nat.eqb_neq in H. exact H. Qed.
 
-Lemma chk_leave s : finished s && qempty s = true -> finished s = true /\ queue s = [].
-Proof.
-  intros H. apply andb_prop in H. destruct H as [H1 H2]. split; auto.
-  unfold qempty in H2. destruct (queue s); [auto|discriminate].
-Qed.
-
 Lemma pholds_wake_prod p : pholds (wake_prod p) = pholds p.
 Proof. destruct p; reflexivity. Qed.
 Lemma pfin_wake_prod p : pfin (wake_prod p) = pfin p.
@@ -525,11 +519,495 @@ Proof.
           try (destruct (IHb w0 L0 Hb) as [Hf Hq0]; split; auto; congruence).
     all: match goal with E : pp _ = _ |- _ =>
            split; intros w0 L0; unfold pcw, nthreads in *; sts;
-           [ intros Hb; try (right; reflexivity);
-             try apply wake_one_blocked in Hb; try (exfalso; exact (map_wake_not_blocked Hb));
-             destruct (IHa w0 L0 Hb) as [Hf|Hp]; [left; exact Hf | congruence]
+           [ intros Hb;
+             first [ right; reflexivity
+                   | exfalso; exact (map_wake_not_blocked Hb)
+                   | try apply wake_one_blocked in Hb;
+                     destruct (IHa w0 L0 Hb) as [Hf|Hp]; [left; exact Hf | congruence] ]
            | rewrite ?wake_one_nth_f, ?wake_nth_f by reflexivity;
              intros Hg; destruct (IHb w0 L0 Hg) as [Hf Hq0];
              rewrite E in HF; cbn [pfin] in HF; try congruence; split; auto ]
          end.
+Qed.
+
+(** 7. no lost wake-up for the workers: a non-empty queue is always seen by somebody *)
+Definition QNE (T : nat) (s : st) : Prop :=
+  queue s <> [] -> pp s = PANotify \/ exists w, w < T /\ active (pcw s w) = true.
+
+Lemma wake_one_active l w d : active (nth w l d) = true -> active (nth w (wake_one l) d) = true.
+Proof. destruct (wake_one_nth l w d) as [->|[_ ->]]; auto. Qed.
+
+Lemma map_wake_active l w : active (nth w l QExited) = true -> active (nth w (map wake l) QExited) = true.
+Proof.
+  destruct (Nat.lt_ge_cases w (length l)) as [L|L].
+  - rewrite (nth_map_d wake l w QExited QExited L). destruct (nth w l QExited); auto.
+  - rewrite !nth_overflow; auto. rewrite map_length; auto.
+Qed.
+
+Lemma anotify_active l T :
+  length l = T -> T >= 1 -> (forall w, w < T -> is_gone (nth w l QExited) = false) ->
+  exists w, w < T /\ active (nth w (wake_one l) QExited) = true.
+Proof.
+  intros HT T1 NG.
+  destruct (countb (fun w => is_qblocked (nth w l QExited)) T) eqn:C.
+  - exists 0. split; [lia|]. apply wake_one_active.
+    pose proof (countb_zero _ _ C 0 ltac:(lia)) as B. cbv beta in B.
+    unfold active. rewrite B, (NG 0) by lia. reflexivity.
+  - destruct (countb_pos (fun w => is_qblocked (nth w l QExited)) T ltac:(lia)) as (w & L & B).
+    cbv beta in B. assert (E : nth w l QExited = QBlocked) by (destruct (nth w l QExited); try discriminate; auto).
+    destruct (@wake_one_wakes l w QExited E ltac:(lia)) as (w' & L' & E').
+    exists w'. split; [lia|]. rewrite E'. reflexivity.
+Qed.
+
+Lemma inv_qne T qs pr tr s : T >= 1 -> run T qs pr tr s -> QNE T s.
+Proof.
+  intros T1. unfold QNE. induction 1 as [|tr s e s' R IH F].
+  - intros H. exfalso; apply H; reflexivity.
+  - destruct (inv_sizes R) as [HT Hq]. destruct (inv_fin R) as [HF _]. destruct (inv_blk R) as [Ba Bb].
+    apply fire_step in F.
+    destruct F.
+    1-20: match goal with Hw : ?w < nthreads ?s, E : pcw ?s ?w = _ |- _ =>
+            intros Hne; unfold pcw, nthreads in *; sts;
+            first [ right; exists w; split; [lia | rewrite nth_upd_eq by lia; reflexivity]
+                  | exfalso; apply Hne;
+                    first [ assumption
+                          | destruct (Bb w) as [_ Q]; [lia | rewrite E; reflexivity | exact Q] ] ]
+          end.
+    all: match goal with E : pp _ = _ |- _ =>
+           intros Hne; unfold pcw, nthreads in *; sts;
+           first [ left; reflexivity
+                 | destruct (IH Hne) as [Hp | (w0 & L0 & A0)];
+                   [ congruence
+                   | right; exists w0; split; [exact L0|]; first [exact A0 | apply map_wake_active; exact A0] ]
+                 | idtac ]
+         end.
+    (* notify_one after a push *)
+    right. apply anotify_active; auto. intros w L.
+    destruct (is_gone (nth w (wpcs s) QExited)) eqn:G; auto.
+    destruct (Bb w L G) as [Hf _]. rewrite H in HF. cbn [pfin] in HF. congruence.
+Qed.
+
+(** 8. no lost wake-up for the producer *)
+Definition PWAKE (T qs : nat) (s : st) : Prop :=
+  (forall id, pp s = PABlocked id ->
+     qs <= length (queue s) \/ exists w, w < T /\ is_qnotify (pcw s w) = true) /\
+  (pp s = PFBlocked -> pending s <> 0 \/ exists w, w < T /\ is_qdecnotify (pcw s w) = true).
+
+Lemma wake_prod_not_ablocked p id : wake_prod p = PABlocked id -> False.
+Proof. destruct p; discriminate. Qed.
+Lemma wake_prod_not_fblocked p : wake_prod p = PFBlocked -> False.
+Proof. destruct p; discriminate. Qed.
+Lemma wake_prod_funlock p : wake_prod p = PFUnlock -> p = PFUnlock.
+Proof. destruct p; try discriminate; auto. Qed.
+Lemma wake_prod_done p : wake_prod p = PDone -> p = PDone.
+Proof. destruct p; try discriminate; auto. Qed.
+
+Lemma inv_pwake T qs pr tr s : run T qs pr tr s -> PWAKE T qs s.
+Proof.
+  induction 1 as [|tr s e s' R IH F].
+  - split; cbn [init pp]; intros; discriminate.
+  - destruct (inv_sizes R) as [HT Hq]. apply fire_step in F. destruct IH as [IHa IHb].
+    destruct F.
+    1-20: match goal with Hw : ?w < nthreads ?s, E : pcw ?s ?w = _ |- _ =>
+            split;
+            [ intros id0 Hp; unfold pcw, nthreads in *; sts;
+              first [ exfalso; exact (wake_prod_not_ablocked Hp)
+                    | destruct (IHa id0 Hp) as [Hl | (w0 & L0 & N0)] ]
+            | intros Hp; unfold pcw, nthreads in *; sts;
+              first [ exfalso; exact (wake_prod_not_fblocked Hp)
+                    | destruct (IHb Hp) as [Hl | (w0 & L0 & N0)] ] ];
+            first [ left; exact Hl
+                  | right; exists w; split; [lia | rewrite nth_upd_eq by lia; reflexivity]
+                  | destruct (Nat.eq_dec w0 w) as [->|Nw];
+                    [ rewrite E in N0; discriminate N0
+                    | right; exists w0; split; [exact L0 | rewrite nth_upd_neq by auto; exact N0] ] ]
+          end.
+    all: split; [intros id0 Hp | intros Hp]; sts; try discriminate Hp; left; rewrite <- ?Hq; assumption.
+Qed.
+
+(** 9. flush() proceeds to its unlock only with pendingTasks = 0; after the join all workers have exited *)
+Lemma inv_pfu T qs pr tr s : run T qs pr tr s -> pp s = PFUnlock -> pending s = 0.
+Proof.
+  induction 1 as [|tr s e s' R IH F].
+  - discriminate.
+  - apply fire_step in F.
+    destruct F.
+    1-20: intros Hp; sts; try apply wake_prod_funlock in Hp; specialize (IH Hp); lia.
+    all: intros Hp; sts; try discriminate Hp; assumption.
+Qed.
+
+Lemma inv_done T qs pr tr s : run T qs pr tr s -> pp s = PDone -> forall w, w < T -> pcw s w = QExited.
+Proof.
+  induction 1 as [|tr s e s' R IH F].
+  - discriminate.
+  - destruct (inv_sizes R) as [HT Hq]. apply fire_step in F.
+    destruct F.
+    1-20: match goal with Hw : ?w < nthreads ?s, E : pcw ?s ?w = _ |- _ =>
+            intros Hp; sts; try apply wake_prod_done in Hp;
+            pose proof (IH Hp w ltac:(lia)) as Q; rewrite E in Q; discriminate Q
+          end.
+    all: intros Hp; sts; try discriminate Hp.
+    intros w L. unfold pcw, nthreads in *; sts.
+    pose proof (@forallb_true_nth is_exited (wpcs s) QExited w H0 ltac:(lia)) as Q.
+    destruct (nth w (wpcs s) QExited); try discriminate Q; reflexivity.
+Qed.
+
+(* ================================================================== the theorems *)
+
+(** B. mutual exclusion *)
+Theorem wq_sizes T qs pr tr s : run T qs pr tr s -> nthreads s = T /\ qsize s = qs.
+Proof. apply inv_sizes. Qed.
+
+Theorem wq_mutex_exclusive T qs pr tr s :
+  run T qs pr tr s ->
+  (forall w, mtx s = Some (W w) <-> (w < T /\ holds (pcw s w) = true)) /\
+  (mtx s = Some Prod <-> pholds (pp s) = true).
+Proof.
+  intros R. destruct (inv_mx R) as [Mp Mw Mlt]. split; [intros w|]; split.
+  - intros Hm. pose proof (Mlt w Hm) as L. split; auto. rewrite (Mw w L), Hm. cbn [is_owner]. apply Nat.eqb_refl.
+  - intros [L Hh]. rewrite (Mw w L) in Hh. apply is_owner_W. auto.
+  - intros Hm. rewrite Mp, Hm. reflexivity.
+  - intros Hh. rewrite Mp in Hh. apply is_owner_P. auto.
+Qed.
+
+(** two threads are never both inside a critical section *)
+Corollary wq_mutex_at_most_one T qs pr tr s :
+  run T qs pr tr s ->
+  (forall w1 w2, w1 < T -> w2 < T -> holds (pcw s w1) = true -> holds (pcw s w2) = true -> w1 = w2) /\
+  (forall w, w < T -> holds (pcw s w) = true -> pholds (pp s) = false).
+Proof.
+  intros R. destruct (wq_mutex_exclusive R) as [Hw Hp]. split.
+  - intros w1 w2 L1 L2 H1 H2.
+    pose proof (proj2 (Hw w1) (conj L1 H1)) as E1. pose proof (proj2 (Hw w2) (conj L2 H2)) as E2. congruence.
+  - intros w L H. pose proof (proj2 (Hw w) (conj L H)) as E.
+    destruct (pholds (pp s)) eqn:P; auto. pose proof (proj2 Hp eq_refl). congruence.
+Qed.
+
+(** C. every task id is accounted for exactly as often as it was added, in every reachable state *)
+Theorem wq_each_task_accounted T qs pr tr s :
+  run T qs pr tr s ->
+  forall id,
+    cnt (adds (prog s)) id + inflight (pp s) id + cnt (queue s) id
+      + countb (fun w => heldpre id (pcw s w)) T + cnt (executed s) id = cnt (adds pr) id
+    /\ cnt (executed s) id = countb (fun w => isdel id (pcw s w)) T + cnt (deleted s) id.
+Proof. apply inv_acc. Qed.
+
+(** consequences spelled out: never executed / deleted more often than added; deleted only after executed *)
+Corollary wq_never_more_than_added T qs pr tr s :
+  run T qs pr tr s ->
+  forall id, cnt (deleted s) id <= cnt (executed s) id /\ cnt (executed s) id <= cnt (adds pr) id.
+Proof. intros R id. destruct (inv_acc R id). lia. Qed.
+
+Corollary wq_executed_were_added T qs pr tr s :
+  run T qs pr tr s -> forall id, In id (executed s) -> In id (adds pr).
+Proof.
+  intros R id I. apply (count_occ_In Nat.eq_dec) in I. apply (count_occ_In Nat.eq_dec).
+  destruct (wq_never_more_than_added R id). lia.
+Qed.
+
+(** D. pendingTasks *)
+Theorem wq_pending_counts T qs pr tr s :
+  run T qs pr tr s -> pending s = length (queue s) + countb (fun w => counted (pcw s w)) T.
+Proof. apply inv_pend. Qed.
+
+(** E. flush *)
+Lemma heldpre_counted id p : heldpre id p = true -> counted p = true.
+Proof. destruct p as [| | | | | | | | |t|[t|]|t|t| |]; cbn; auto; discriminate. Qed.
+Lemma isdel_counted id p : isdel id p = true -> counted p = true.
+Proof. destruct p; cbn; auto; discriminate. Qed.
+
+Lemma pending0_quiescent T qs pr tr s :
+  run T qs pr tr s -> pending s = 0 ->
+  queue s = [] /\ forall id,
+    countb (fun w => heldpre id (pcw s w)) T = 0 /\ countb (fun w => isdel id (pcw s w)) T = 0.
+Proof.
+  intros R P0. pose proof (inv_pend R) as HP. unfold PEND in HP. rewrite P0 in HP.
+  split. { apply length_zero_iff_nil. lia. }
+  intros id. split; apply countb_sub with (f := fun w => counted (pcw s w)); try lia;
+    intros w _; cbv beta; [apply heldpre_counted | apply isdel_counted].
+Qed.
+
+Theorem wq_flush_unlock_pending0 T qs pr tr s : run T qs pr tr s -> pp s = PFUnlock -> pending s = 0.
+Proof. apply inv_pfu. Qed.
+
+Theorem wq_flush_returns_only_when_done T qs pr tr s :
+  run T qs pr ((Prod, PFUnlockA) :: tr) s ->
+  pending s = 0 /\ queue s = [] /\
+  forall id, cnt (deleted s) id + cnt (adds (prog s)) id = cnt (adds pr) id
+             /\ cnt (executed s) id = cnt (deleted s) id.
+Proof.
+  intros R.
+  assert (P0 : pending s = 0 /\ pp s = PIdle).
+  { inversion R as [|tr' s0 e s' R0 F]; subst. pose proof (inv_pfu R0) as Q.
+    unfold fire in F; cbn [fst snd] in F. unfold fire_p in F.
+    destruct (pp s0) eqn:E; try discriminate F. injection F as <-. sts. auto. }
+  destruct P0 as [P0 Hpp]. destruct (pending0_quiescent R P0) as [Hq Hc].
+  split; auto. split; auto. intros id.
+  destruct (inv_acc R id) as [A1 A2]. destruct (Hc id) as [C1 C2].
+  rewrite Hpp, Hq, C1 in A1. rewrite C2 in A2. cbn [inflight count_occ] in A1. lia.
+Qed.
+
+(** F. destructor *)
+Lemma final_pdone s : final s = true -> pp s = PDone.
+Proof. unfold final. destruct (pp s); try discriminate; auto. Qed.
+
+Lemma final_counts T qs pr tr s :
+  T >= 1 -> run T qs pr tr s -> final s = true ->
+  queue s = [] /\ pending s = 0 /\
+  forall id, cnt (executed s) id = cnt (adds pr) id /\ cnt (deleted s) id = cnt (adds pr) id.
+Proof.
+  intros T1 R Hf. apply final_pdone in Hf. pose proof (inv_done R Hf) as HE.
+  destruct (inv_blk R) as [_ Bb]. destruct (inv_fin R) as [_ Hprog].
+  assert (Hq : queue s = []).
+  { destruct (Bb 0) as [_ Q]; auto. rewrite HE; auto. }
+  assert (Hz : forall f : qpc -> bool, f QExited = false -> countb (fun w => f (pcw s w)) T = 0).
+  { intros f Ef. apply countb_none. intros w L. rewrite HE; auto. }
+  split; auto. split.
+  - rewrite (inv_pend R), Hq, Hz; auto.
+  - intros id. destruct (inv_acc R id) as [A1 A2].
+    rewrite Hprog in A1 by (rewrite Hf; reflexivity).
+    rewrite Hf, Hq, (Hz (heldpre id)) in A1 by reflexivity. rewrite (Hz (isdel id)) in A2 by reflexivity.
+    cbn [adds inflight count_occ] in A1. lia.
+Qed.
+
+Theorem wq_destructor_drains T qs pr tr s :
+  T >= 1 -> run T qs pr tr s -> final s = true ->
+  queue s = [] /\ pending s = 0 /\ Permutation (executed s) (adds pr) /\ Permutation (deleted s) (adds pr).
+Proof.
+  intros T1 R Hf. destruct (final_counts T1 R Hf) as (Hq & Hp & Hc).
+  split; auto. split; auto.
+  split; apply (Permutation_count_occ Nat.eq_dec); intros id; destruct (Hc id); auto.
+Qed.
+
+Corollary wq_each_task_exactly_once T qs pr tr s :
+  NoDup (adds pr) -> T >= 1 -> run T qs pr tr s -> final s = true ->
+  NoDup (executed s) /\ NoDup (deleted s) /\ (forall id, In id (executed s) <-> In id (adds pr)).
+Proof.
+  intros ND T1 R Hf. destruct (wq_destructor_drains T1 R Hf) as (_ & _ & Pe & Pd).
+  split; [|split].
+  - eapply Permutation_NoDup; [apply Permutation_sym; exact Pe | exact ND].
+  - eapply Permutation_NoDup; [apply Permutation_sym; exact Pd | exact ND].
+  - intros id. split; apply Permutation_in; auto. apply Permutation_sym; auto.
+Qed.
+
+(** G. deadlock freedom: in every reachable non-final state some thread has a non-spurious step *)
+Definition canfire (s : st) (t : thr) : Prop :=
+  exists a s', fire s (t, a) = Some s' /\ is_spurious a = false.
+
+Lemma holder_moves s w : w < nthreads s -> holds (pcw s w) = true -> canfire s (W w).
+Proof.
+  intros L. apply Nat.ltb_lt in L. unfold canfire, fire; cbn [fst snd]; unfold fire_w. rewrite L; cbn [negb].
+  destruct (pcw s w) as [| | | | | | | | |t|[t|]|t|t| |]; try discriminate; intros _.
+  - exists ADec; eexists; split; reflexivity.
+  - exists ADecNotify; eexists; split; reflexivity.
+  - exists AChk. cbv beta iota. destruct (finished s && qempty s); eexists; split; reflexivity.
+  - exists AWaitEnter. cbv beta iota. destruct (wpred s); eexists; split; reflexivity.
+  - destruct (queue s); [exists ANotifyFull | exists APop]; eexists; split; reflexivity.
+  - exists ANotifyFull; eexists; split; reflexivity.
+  - exists AUnlock; eexists; split; reflexivity.
+  - exists AUnlock; eexists; split; reflexivity.
+Qed.
+
+Lemma free_moves s w :
+  mtx s = None -> w < nthreads s ->
+  holds (pcw s w) = false -> is_qblocked (pcw s w) = false -> is_exited (pcw s w) = false -> canfire s (W w).
+Proof.
+  intros Hm L. apply Nat.ltb_lt in L. unfold canfire, fire; cbn [fst snd]; unfold fire_w, mtx_free.
+  rewrite L, Hm; cbn [negb].
+  destruct (pcw s w) as [|dec| | | | | | | |t|[t|]|t|t| |]; try discriminate; intros _ _ _.
+  - exists AStart; eexists; split; reflexivity.
+  - exists ALock; eexists; split; reflexivity.
+  - destruct (wpred s); [exists AWaitExit | exists ARecheck]; eexists; split; reflexivity.
+  - exists (AExec t). cbv beta iota. rewrite Nat.eqb_refl. eexists; split; reflexivity.
+  - exists (ADel t). cbv beta iota. rewrite Nat.eqb_refl. eexists; split; reflexivity.
+  - exists AExit; eexists; split; reflexivity.
+Qed.
+
+Lemma prod_holder_moves s : pholds (pp s) = true -> canfire s Prod.
+Proof.
+  unfold canfire, fire; cbn [fst snd]; unfold fire_p.
+  destruct (pp s); try discriminate; intros _.
+  - exists PAWaitEnterA. cbv beta iota. destruct (apred s); eexists; split; reflexivity.
+  - exists PAPushA; eexists; split; reflexivity.
+  - exists PANotifyA; eexists; split; reflexivity.
+  - exists PAUnlockA; eexists; split; reflexivity.
+  - exists PFWaitEnterA. cbv beta iota. destruct (fpred s); eexists; split; reflexivity.
+  - exists PFUnlockA; eexists; split; reflexivity.
+  - exists DSet; eexists; split; reflexivity.
+  - exists DNotify; eexists; split; reflexivity.
+  - exists DUnlock; eexists; split; reflexivity.
+Qed.
+
+Lemma canfire_enabled s t : canfire s t -> exists e s', In (e, s') (enabled s) /\ is_spurious (snd e) = false.
+Proof. intros (a & s' & F & Sp). exists (t, a), s'. split; auto. apply wq_enabled_complete; auto. Qed.
+
+Theorem wq_no_deadlock T qs pr tr s :
+  T >= 1 -> qs >= 1 -> run T qs pr tr s -> final s = false ->
+  exists e s', In (e, s') (enabled s) /\ is_spurious (snd e) = false.
+Proof.
+  intros T1 Q1 R NF.
+  destruct (inv_sizes R) as [HT Hqs]. destruct (inv_mx R) as [Mp Mw Mlt].
+  destruct (mtx s) as [[|w0]|] eqn:Hm.
+  { apply canfire_enabled with (t := Prod). apply prod_holder_moves. rewrite Mp. reflexivity. }
+  { pose proof (Mlt w0 eq_refl) as L0. apply canfire_enabled with (t := W w0). apply holder_moves; [lia|].
+    rewrite (Mw w0 L0). cbn [is_owner]. apply Nat.eqb_refl. }
+  cbn [is_owner] in Mp.
+  assert (WM : forall w, w < T -> is_qblocked (pcw s w) = false -> is_exited (pcw s w) = false ->
+               exists e s', In (e, s') (enabled s) /\ is_spurious (snd e) = false).
+  { intros w L B E. apply canfire_enabled with (t := W w). apply free_moves; auto; try lia. rewrite (Mw w L). reflexivity. }
+  assert (NH : forall w, w < T -> holds (pcw s w) = false) by (intros w L; rewrite (Mw w L); reflexivity).
+  pose proof (inv_qne T1 R) as HQ. unfold QNE in HQ.
+  assert (FQ : queue s <> [] -> pp s <> PANotify ->
+               exists e s', In (e, s') (enabled s) /\ is_spurious (snd e) = false).
+  { intros Hne Hnp. destruct (HQ Hne) as [Hp|(w & L & A)]; [contradiction|].
+    unfold active in A. apply negb_true_iff in A. apply orb_false_elim in A. destruct A as [A1 A2].
+    apply (WM w L A1). destruct (pcw s w); try discriminate; reflexivity. }
+  assert (PM : forall a s', fire_p s a = Some s' -> is_spurious a = false ->
+               exists e s', In (e, s') (enabled s) /\ is_spurious (snd e) = false).
+  { intros a s' F Sp. apply canfire_enabled with (t := Prod). exists a, s'. split; auto. }
+  destruct (inv_pwake R) as [Wa Wf]. destruct (inv_fin R) as [HF _]. destruct (inv_blk R) as [Ba _].
+  unfold fire_p, mtx_free in PM. rewrite Hm in PM.
+  destruct (pp s) eqn:Hpp; try discriminate Mp.
+  - (* PIdle *)
+    destruct (prog s) as [|[id|] rest] eqn:Hprog.
+    + apply (PM DBegin _ eq_refl eq_refl).
+    + apply (PM (PAddBegin id) (set_pp (set_prog s rest) (PALock id))); auto; cbv beta iota; rewrite ?Nat.eqb_refl; auto.
+    + apply (PM PFlushBegin _ eq_refl eq_refl).
+  - apply (PM PALockA _ eq_refl eq_refl).
+  - (* PABlocked: the queue is full, hence non-empty, and somebody will take from it *)
+    destruct (Wa id eq_refl) as [Hl|(w & L & N)].
+    + apply FQ; [|discriminate]. intros Hq. rewrite Hq in Hl. cbn [length] in Hl. lia.
+    + pose proof (NH w L) as Hh. destruct (pcw s w); discriminate.
+  - (* PAWoken *)
+    destruct (apred s) eqn:Ap.
+    + apply (PM PAWaitExitA (set_pp (set_mtx s (Some Prod)) (PAPush id))); auto; cbv beta iota; rewrite ?Ap; auto.
+    + apply (PM PARecheckA (set_pp s (PABlocked id))); auto; cbv beta iota; rewrite ?Ap; auto.
+  - apply (PM PFLockA _ eq_refl eq_refl).
+  - (* PFBlocked: pendingTasks <> 0, so a task is queued or a worker still owes its decrement *)
+    destruct (Wf eq_refl) as [Hn|(w & L & N)].
+    + pose proof (inv_pend R) as HP. unfold PEND in HP.
+      destruct (queue s) eqn:Hq.
+      * cbn [length] in HP.
+        destruct (countb_pos (fun w => counted (pcw s w)) T ltac:(lia)) as (w & L & C). cbv beta in C.
+        apply (WM w L); destruct (pcw s w); try discriminate; reflexivity.
+      * rewrite <- Hq in *. apply FQ; [|discriminate]. rewrite Hq. discriminate.
+    + pose proof (NH w L) as Hh. destruct (pcw s w); discriminate.
+  - (* PFWoken *)
+    destruct (fpred s) eqn:Fp.
+    + apply (PM PFWaitExitA (set_pp (set_mtx s (Some Prod)) PFUnlock)); auto; cbv beta iota; rewrite ?Fp; auto.
+    + apply (PM PFRecheckA (set_pp s PFBlocked)); auto; cbv beta iota; rewrite ?Fp; auto.
+  - apply (PM DLock _ eq_refl eq_refl).
+  - (* PJoin: a worker that has not exited is neither blocked (notify_all has happened) nor in the critical section *)
+    destruct (forallb is_exited (wpcs s)) eqn:AE.
+    + apply (PM DJoined (set_pp s PDone)); auto; cbv beta iota; rewrite ?AE; auto.
+    + destruct (@forallb_false_nth is_exited (wpcs s) QExited AE) as (w & L & E).
+      unfold nthreads in HT. rewrite HT in L. apply (WM w L); auto.
+      destruct (is_qblocked (pcw s w)) eqn:B; auto.
+      assert (EB : pcw s w = QBlocked) by (destruct (pcw s w); try discriminate; auto).
+      cbn [pfin] in HF. destruct (Ba w L EB); congruence.
+  - (* PDone *) unfold final in NF. rewrite Hpp in NF. discriminate.
+Qed.
+
+(** H. soundness of the hook-trace acceptor: the model transitions it fires form a run *)
+Lemma accepts_from_run T qs pr evs :
+  forall s0 pend tr0 s fired,
+    run T qs pr tr0 s0 -> accepts_from s0 pend tr0 evs = Some (s, fired) -> run T qs pr fired s.
+Proof.
+  induction evs as [|e r IH]; intros s0 pend tr0 s fired R A; cbn [accepts_from] in A.
+  - injection A as <- <-. exact R.
+  - destruct (accept_step s0 pend e) as [[[s1 pend1] f]|] eqn:St; [|discriminate].
+    apply (IH _ _ _ _ _) in A; auto.
+    unfold accept_step in St.
+    destruct (is_hidden (snd e) || is_spurious (snd e)); [discriminate|].
+    destruct (memt (fst e) pend).
+    + destruct (is_wait_exit (snd e)); [|discriminate]. injection St as <- _ <-. exact R.
+    + destruct (fire s0 (resolve s0 e)) eqn:F; [|discriminate]. injection St as <- _ <-.
+      econstructor; eauto.
+Qed.
+
+Theorem wq_accepts_sound T qs pr evs s fired :
+  accepts_from (init T qs pr) [] [] evs = Some (s, fired) -> run T qs pr fired s.
+Proof. apply accepts_from_run. constructor. Qed.
+
+Corollary wq_accepts_run T qs pr evs : accepts T qs pr evs = true -> exists tr s, run T qs pr tr s.
+Proof.
+  unfold accepts. destruct (accepts_from (init T qs pr) [] [] evs) as [[s fired]|] eqn:A; [|discriminate].
+  intros _. exists fired, s. eapply wq_accepts_sound; eauto.
+Qed.
+
+Corollary wq_accepts_complete_run T qs pr evs :
+  accepts_complete T qs pr evs = true -> exists tr s, run T qs pr tr s /\ final s = true.
+Proof.
+  unfold accepts_complete. destruct (accepts_from (init T qs pr) [] [] evs) as [[s fired]|] eqn:A; [|discriminate].
+  intros Hf. exists fired, s. split; auto. eapply wq_accepts_sound; eauto.
+Qed.
+
+(** I. non-vacuity: a complete hook trace of the 1-worker system, queueSize 1, program  addTask(7); flush(); ~ *)
+Definition demo_prog : list op := [Add 7; Flush].
+Definition demo_trace : list event :=
+  [ (W 0, AStart); (W 0, ALock); (W 0, AChk); (W 0, AWaitEnter);                 (* worker blocks: queue empty *)
+    (Prod, PAddBegin 7); (Prod, PALockA); (Prod, PAWaitEnterA); (Prod, PAWaitExitA);  (* wait did not block *)
+    (Prod, PAPushA); (Prod, PANotifyA); (Prod, PAUnlockA);
+    (W 0, AWaitExit); (W 0, APop); (W 0, ANotifyFull); (W 0, AUnlock);
+    (Prod, PFlushBegin); (Prod, PFLockA); (Prod, PFWaitEnterA);                    (* flush blocks: pending = 1 *)
+    (W 0, AExec 7); (W 0, ADel 7); (W 0, ALock); (W 0, ADec); (W 0, ADecNotify);
+    (W 0, AChk); (W 0, AWaitEnter);                                                (* worker blocks again *)
+    (Prod, PFWaitExitA); (Prod, PFUnlockA);                                        (* flush returns *)
+    (Prod, DBegin); (Prod, DLock); (Prod, DSet); (Prod, DNotify); (Prod, DUnlock);
+    (W 0, AWaitExit); (W 0, ANotifyFull); (W 0, AUnlock); (W 0, ALock); (W 0, AChk); (W 0, AExit);
+    (Prod, DJoined) ].
+
+Example wq_demo_accepted : accepts_complete 1 1 demo_prog demo_trace = true.
+Proof. vm_compute. reflexivity. Qed.
+
+(** the hypotheses of E and F are satisfiable, and their conclusions are what one expects on the demo *)
+Example wq_demo_final_run :
+  exists tr s, run 1 1 demo_prog tr s /\ final s = true /\ executed s = [7] /\ deleted s = [7].
+Proof.
+  destruct (accepts_from (init 1 1 demo_prog) [] [] demo_trace) as [[s fired]|] eqn:A; [|vm_compute in A; discriminate].
+  exists fired, s. split. { eapply wq_accepts_sound; eauto. }
+  vm_compute in A. injection A as <- _. vm_compute. auto.
+Qed.
+
+Example wq_demo_flush_run :
+  exists tr s, run 1 1 demo_prog ((Prod, PFUnlockA) :: tr) s /\ executed s = [7] /\ deleted s = [7] /\ prog s = [].
+Proof.
+  destruct (accepts_from (init 1 1 demo_prog) [] [] (firstn 27 demo_trace)) as [[s fired]|] eqn:A;
+    [|vm_compute in A; discriminate].
+  pose proof (wq_accepts_sound A) as R. vm_compute in A. injection A as <- <-.
+  eexists; eexists; split; [exact R|]. vm_compute. auto.
+Qed.
+
+(** the acceptor rejects a trace in which the worker takes the task without the producer having pushed it *)
+Example wq_demo_rejected :
+  accepts 1 1 demo_prog [ (W 0, AStart); (W 0, ALock); (W 0, AChk); (W 0, AWaitEnter); (W 0, AWaitExit) ] = false.
+Proof. vm_compute. reflexivity. Qed.
+
+(** a second complete trace: 2 workers, queueSize 1, addTask(1); addTask(2); ~  -- the producer blocks on the full
+    queue and is woken by the worker that pops; worker 1 enters its wait with the predicate already true *)
+Definition demo2_prog : list op := [Add 1; Add 2].
+Definition demo2_trace : list event :=
+  [ (W 0, AStart); (W 0, ALock); (W 0, AChk); (W 0, AWaitEnter);
+    (Prod, PAddBegin 1); (Prod, PALockA); (Prod, PAWaitEnterA); (Prod, PAWaitExitA);
+    (Prod, PAPushA); (Prod, PANotifyA); (Prod, PAUnlockA);
+    (Prod, PAddBegin 2); (Prod, PALockA); (Prod, PAWaitEnterA);                    (* queue full: producer blocks *)
+    (W 0, AWaitExit); (W 0, APop); (W 0, ANotifyFull); (W 0, AUnlock);             (* pop wakes the producer *)
+    (Prod, PAWaitExitA); (Prod, PAPushA); (Prod, PANotifyA); (Prod, PAUnlockA);    (* notify_one: nobody waits *)
+    (W 1, AStart); (W 1, ALock); (W 1, AChk); (W 1, AWaitEnter); (W 1, AWaitExit); (* wait did not block *)
+    (W 1, APop); (W 1, ANotifyFull); (W 1, AUnlock);
+    (W 1, AExec 2); (W 1, ADel 2); (W 0, AExec 1); (W 0, ADel 1);
+    (Prod, DBegin); (Prod, DLock); (Prod, DSet); (Prod, DNotify); (Prod, DUnlock);
+    (W 0, ALock); (W 0, ADec); (W 0, ADecNotify); (W 0, AChk); (W 0, AExit);
+    (W 1, ALock); (W 1, ADec); (W 1, ADecNotify); (W 1, AChk); (W 1, AExit);
+    (Prod, DJoined) ].
+
+Example wq_demo2_accepted : accepts_complete 2 1 demo2_prog demo2_trace = true.
+Proof. vm_compute. reflexivity. Qed.
+
+Example wq_demo2_final_run :
+  exists tr s, run 2 1 demo2_prog tr s /\ final s = true /\ executed s = [1; 2] /\ deleted s = [1; 2].
+Proof.
+  destruct (accepts_from (init 2 1 demo2_prog) [] [] demo2_trace) as [[s fired]|] eqn:A; [|vm_compute in A; discriminate].
+  exists fired, s. split. { eapply wq_accepts_sound; eauto. }
+  vm_compute in A. injection A as <- _. vm_compute. auto.
 Qed.
